@@ -12,335 +12,226 @@ Definition show_fres (r : fres) : string :=
   end.
 Definition check (rs : list rune) : string := digest (show_fres (format_res rs)).
 Definition full (rs : list rune) : string := show_fres (format_res rs).
-Eval vm_compute in ("<<<M1867>>>" ++ check (runes_of_ascii "  options{
-    BodyLength
-    =	char[7
-    ]
+Eval vm_compute in ("<<<M1676>>>" ++ check (runes_of_ascii "MetaData chars {
+    int8 Z9_,
+    float rootA `tab	here`,
+    T o `it's`,
+    roots int,
+    repeatCount MetaDataX,
+    float32 falsey `say ""hi""`,
+}
 
-    ;
+packet msg_type {
+    repeat f32 o,
+    @tag(0)
+    char[] A,
+    repeat char[] tag `say ""hi""`,
+    repeat char[0] Z9_,
+    zchar[1] lengthOf,
+    i64 T,
+    match float as leftPad {
+        007 : len,
+        ""it's"" : len,
+        ""it's"" : float,
+        [
+            255, 00, 1, ""abc"", ""abc"",
+            """ ++ [28040; 24687]%N ++ runes_of_ascii """, ""x y"", """"
+        ] : _x,
+        """" : len,
+        ""\" ++ [233]%N ++ runes_of_ascii """ : i64_,
+        //	t
+    },
+    roots {
+        char[1] Header @lengthOf(x_y_z),
+        body u128,// `tick` ""quote"" 'q'
+        char[] float,
+        chars @lengthOf(x) `doc`,
+    },
+    crc `it's`,
+    @calculatedFrom(""" ++ [128512]%N ++ runes_of_ascii """)
+    BodyLength `" ++ [28040; 24687; 31867; 22411]%N ++ runes_of_ascii "`,
+}
 
-    } 
-  // c
-		// @lengthOf(
-    	packet asx	// " ++ [128512]%N ++ runes_of_ascii " emoji
-  	{ int16
-x_y_z ,
-@calculatedFrom( """"
-	)
-@lengthOf( 
-	    /// triple
+packet u128 {
+    lengthOf,
+    pack @lengthOf(u8x) `// not a comment`,
+    @leftPad(' ')
+    float {
+        match asx as charz {
+            [4294967296, 255, 42, """", ""1""] : u8x,
+            ""{,}"" : Foo,
+            42 : leftPad,
+            [255, 4294967296, ""a\""b"", ""it's""] : stringy,
+            3 : Header,
+        },
+        match o as Pad {
+            3 : i64_,
+        },
+        repeat string msg_type,
+        match packetx as lengthOf {
+            [""x y"", """"] : x_y_z,
+        },
+    },
+    i64 float,
+    repeat zchar[3] rootA `crlf
+    line`,
+    match msg_type as len {
+        ""CRC32"" : MetaDataX,
+    },
+    f32 A,
+    char[0123456789] chars `{ , }`,/// triple
+    @calculatedFrom(""a\""b"")
+    string string_ `" ++ [233]%N ++ runes_of_ascii "`,
+}")).
+Eval vm_compute in ("<<<M1510>>>" ++ check (runes_of_ascii "root packet// " ++ [27880; 37322]%N ++ runes_of_ascii "
+	  crc
+	{	@lengthOf( As
 
-chars)	//
-repeat 
-repeatCount 
-charz 
-/// triple
-	// " ++ [27880; 37322]%N ++ runes_of_ascii "
-    	,@leftPad (
-
-    )
-
-    i64_@calculatedFrom( 
-""\" ++ [233]%N ++ runes_of_ascii """ ) 
-`// not a comment`, tag
-    Z9_
-`two words`
-
-    ,
-
-@lengthOf(
-
-    asx ) @calculatedFrom(
-""`tick`""
-)
-	match uint8x as matchKey { 0123456789
-	// packet A { u8 x, }
-  // a // b
-  :u8x
-	, 1
-
-    :zchar
-
-,
-	},
-u128
-@lengthOf( 
-u128// packet A { u8 x, }
-      )// " ++ [128512]%N ++ runes_of_ascii " emoji
-
-,
-    }
-	MetaData	msg_type{string	BodyLength
-`two words` ,
-options1// " ++ [128512]%N ++ runes_of_ascii " emoji
-	  i64_  ,
-
-} 	 // " ++ [128512]%N ++ runes_of_ascii " emoji
-    	packet roots
-
-{u
-``
-
-,
-@calculatedFrom(
-""a	b""
-	) match len
-    as
-
-    msg_type{ 
-// c
-  """ ++ [28040; 24687]%N ++ runes_of_ascii """
-
-    :
-    charz 
-}  ,
-crc	@calculatedFrom(
-    // packet A { u8 x, }
-	  // packet A { u8 x, }
-	""it's"" )
-
-    `a\` ,
-@leftPad
-
-    (
-
-    '0'	)@tag( 007
-)
-
-zchar[  // trailing space 
-  3 
-    // trailing space 
-
-	]falsey  ,	@calculatedFrom(  // `tick` ""quote"" 'q'
-    	""\n"" 
-) @calculatedFrom(
-""CRC32""  // c
-	)  
-  // trailing space 
-match 
-//x
-
-	Packet
-
-as // @lengthOf(
-  stringy {1:Pad 
-,	""it's""
-
-    : 
-f32a
-
-    ,
-    }  ,
-
-    @leftPad
-(' '
-
-)match// " ++ [27880; 37322]%N ++ runes_of_ascii "
-  int as
-a1
-{ 
-[ 0123456789
-
-,
-255]: options1
-	    //x
-    //x
-	}
-,
-    BodyLength
-
-    //
-
-	@calculatedFrom(
-    """ ++ [28040; 24687]%N ++ runes_of_ascii """  ) ,  float32 zchar	@calculatedFrom(
-""// no comment""  )
-
-,	@tag( 
-10 
-)
-
-zchar[  
-  // packet A { u8 x, }
-	1  ]rootA 
-,
-
-    }
-
-")).
-Eval vm_compute in ("<<<M1708>>>" ++ check (runes_of_ascii "  root
-    packet  // @lengthOf(
-	repeatCount {
-	@lengthOf( u8x 
-)
-	@calculatedFrom(  ""1""
-	)
-
-@tag(  007
-
-)
-repeat
-	zchar[42
-	]  Header `" ++ [28040; 24687; 31867; 22411]%N ++ runes_of_ascii "` ,
-	match options1	as asx  {
-255  
-      // `tick` ""quote"" 'q'
-
-  :
-    roots 
-,  }
-	,  // a // b
-	Header
-@lengthOf(
-// a // b
-options1)
-
-``
-
-, Header 	 //	t
-    	@lengthOf(	len 
 ) 
-`{ , }` ,
-o 
-matchKey `u8 x,`	,  }
+@calculatedFrom(""\" ++ [233]%N ++ runes_of_ascii """
+    )zchar[
 
-packet packetx	{
-	zchar[
+    4294967296] 
+MetaDataX
 
-    255]crc
-	,	}packet 
-Logon
-    {  body
-    { 
-float
-	{  repeat 
-Logon
+    `doc` , 	 /// triple
+	rootA@calculatedFrom( ""it's"" ),
+@tag(
+	65535 )
+@tag(// c
+  7 )@tag(  00 
+//
+  // c
+) 
+len @lengthOf( A )
+    `two words` ,  
+      // trailing space 
 
-    trueish
+// " ++ [128512]%N ++ runes_of_ascii " emoji
+
+	string  rootA
+	@lengthOf(	pack 
+    // trailing space 
+  	//	t
+),
+    // " ++ [128512]%N ++ runes_of_ascii " emoji
+	// trailing space 
+	repeat zchar 
 ,
+	@calculatedFrom( ""abc""
 
-} ,}  ,
-	@calculatedFrom( 
-  // `tick` ""quote"" 'q'
-  	""`tick`"" )
-repeat	char[
-0	]
+    )@leftPad( '\x00' 
+) @rightPad
 
-    f32a 
-, 
-match
-	body
-    as
-float{
-    [
-
-65535
-,
-    """ ++ [28040; 24687]%N ++ runes_of_ascii """]
-    :calculatedFrom,
-	},
-u32 float @calculatedFrom(
-
-""" ++ [233]%N ++ runes_of_ascii "t" ++ [233]%N ++ runes_of_ascii """// @lengthOf(
-)
-
-,	string
-
-    body
-@lengthOf(len
-
-) `
-`//
-, u8x@calculatedFrom( 
-""a\""b""	)
-//	t
-	  ,  //	t
-    float64
-    options1 @calculatedFrom(	""" ++ [128512]%N ++ runes_of_ascii """)
-	`it's`
-,  
-      //x
-  // trailing space 
-
+    ( )
 match 
-crc as
+x_y_z
 
-chars  {
-
-    3 :
-options1 // @lengthOf(
+as
+	Z9_ {  ""it's""
+:Logon//x
     ,
-    [ 10
-    ] :	_x
+	""x y"":	Packet  ,""abc""
+	:
 
-    [""{,}"" 
-]
-	:options1,
-[
+trueish 4294967296  // @lengthOf(
+	: repeatCount
 
-    ""CRC32""	,
-""a\\""
-, ""a\\""
-, 
-""packet""
+""" ++ [128512]%N ++ runes_of_ascii """
+:	x_y_z
+} ,
+	char[10 	 // @lengthOf(
+	] stringy  `it's`  , @leftPad	('\x00'
 
-    ,  7
+    ) 
+rootA @lengthOf(
+i64_  )
+,  }  MetaData falsey
+{ Packet repeatCount
+`tab	here`
+, } MetaData
 
-// `tick` ""quote"" 'q'
-	]	:As
+string_
+{ float64
+    roots `line1
+line2`,
+	char  As	//
+  `
+`	,	zchar[ 65535
+	]falsey
+`a\`
+	, A 
+T
+	, _x  metadata
 
-} 
-, 
-i16	msg_type ,
+    , }	packet
+_x 	 // packet A { u8 x, }
+{ zchar[
 
-    }
+255	]
+string_
+
+    @lengthOf( 
+    //	t
+	// @lengthOf(
+	  u128
+
+    )  `{ , }`  ,	}root packet	Packet {
+repeat 	 // " ++ [128512]%N ++ runes_of_ascii " emoji
+    lengthOf ,  }
 
 ")).
-Eval vm_compute in ("<<<M129>>>" ++ check (runes_of_ascii "packet
-MetaDataX { metadata trueish`" ++ [233]%N ++ runes_of_ascii "`
-//x
-//x
-,// trailing space 
-@calculatedFrom(""`tick`"" )uint8x
-    // c
-    @calculatedFrom(  """ ++ [128512]%N ++ runes_of_ascii """  ) `{ , }`
-    , @calculatedFrom( ""a\""b"" ) // packet A { u8 x, }
-match Packet as
-    body { 3
-    : repeatCount
-,""x y""
-    /// triple
-    :lengthOf// `tick` ""quote"" 'q'
-4294967296 :
-    packetx
-    , [ ""abc""
-, ""// no comment""
-    ,
-""abc"" ,
-""\n"" //	t
-, ""1""
-]: u128 [ 00 , 65535 ,""x y"" ,""{,}""  ]
-: calculatedFrom ,
-    7 :	i8i8  }, u8x ,match int as	matchKey{
-[1 ,""CRC32""]
-    // trailing space 
-    :// @lengthOf(
-asx,	}
-    , @lengthOf( // " ++ [128512]%N ++ runes_of_ascii " emoji
-a1) string x `it's` , repeat // @lengthOf(
-char matchKey  ,
+Eval vm_compute in ("<<<M174>>>" ++ check (runes_of_ascii "
+root packet asx { leftPad
+    {u128 @calculatedFrom( ""1""
+) , //x
+}
+, lengthOf // packet A { u8 x, }
+@calculatedFrom( """ ++ [128512]%N ++ runes_of_ascii """ ) `a\`
+, i64 // `tick` ""quote"" 'q'
+Packet @lengthOf(  calculatedFrom ) , @calculatedFrom(
+""" ++ [233]%N ++ runes_of_ascii "t" ++ [233]%N ++ runes_of_ascii """ ) stringy	a1 `doc` // `tick` ""quote"" 'q'
+, @rightPad
+    (
     // a // b
-    @leftPad // trailing space 
-( )@rightPad ( ) match
-metadata	as  Packet { [ 65535  ] : Header , }, @tag( 255)
-zchar[ 3 ] crc `u8 x,` ,} MetaData
-    rootA // trailing space 
-{
-i8i8	Pad , int8
-packetx `{ , }`
-,
-    int8 stringy,
-    // `tick` ""quote"" 'q'
-    body _x  , body o , }")).
+    )
+    // c
+    a1
+    `a\`
+,  char
+Header @lengthOf(
+    x )`say ""hi""`, uint8x
+Z9_ `tab	here` ,  }
+options
+    {
+    calculatedFrom// packet A { u8 x, }
+= 0}	packet metadata {@leftPad ( '\x00'	) f32
+    pack
+//	t
+//
+, @tag( 65535 ) u32 uint8x @lengthOf( repeatCount) ``,MetaDataX	{ repeat options1 , match
+matchKey as len { """ ++ [128512]%N ++ runes_of_ascii """:
+    u8x	, 1 :
+zchar
+, /// triple
+[ ""a\\""
+    ,
+    ""x y"" ] : charz 0
+    :
+    x_y_z
+    //
+    ,[// trailing space 
+4294967296// `tick` ""quote"" 'q'
+]: asx  , [/// triple
+""a\""b"" , ""\n"" , ""\" ++ [233]%N ++ runes_of_ascii """ ,10 ] : _x ,
+    }	, uint8  metadata
+@lengthOf(float
+) ,
+zchar[
+    255] i8i8 , },
+    }root  packet
+f32a
+    { }")).
 Eval vm_compute in ("<<<M1123>>>" ++ check (runes_of_ascii "// top
 options
     // c0
@@ -730,33 +621,34 @@ f32a , @leftPad( '\x00')
 uint8 Logon
 ,
     }")).
-Eval vm_compute in ("<<<M1767>>>" ++ check (runes_of_ascii "// top
-packet A {
-    // c2
-    u8 a,
-}// c6a
-
-// c6b
-packet B {
-    u16 b,
-}
-
-// c13
-root packet P {
-    // c17a
-    // c17b
-    u8 K1,// c20
-    u8 K2,// c23a
-    // c23b
-    match K1 as M1 {
-        // c28a
-        // c28b
-        1 : A,
-    },
-    match K2 as M2 {
-        1 : B,
-    },
-}// c46")).
+Eval vm_compute in ("<<<M321>>>" ++ check (runes_of_ascii "
+options
+{ a1 = '\x00'
+As
+= ""{,}"" u8x
+=//x
+""a	b""
+    ; asx
+    = u64;
+o
+// @lengthOf(
+// c
+=0123456789 } packet Header
+{
+    //
+    @lengthOf(x // trailing space 
+)
+    // " ++ [27880; 37322]%N ++ runes_of_ascii "
+    repeat
+falsey { repeatCount
+    trueish
+`u8 x,` , } ,
+// `tick` ""quote"" 'q'
+// " ++ [128512]%N ++ runes_of_ascii " emoji
+zchar[
+65535 ] x
+    ,
+}")).
 Eval vm_compute in ("<<<M1322>>>" ++ check (runes_of_ascii "packet
 
     P1
